@@ -35,10 +35,10 @@ func specSubSat(cur uint64, n int) uint64 {
 //@   ensures#bytes-released-on-success{C11} result2 == nil ==> r.nBytes == specSubSat(old(r.nBytes), result0)
 //@   ensures#unordered-first{C06} result2 == nil && !old(r.useInterleaving) && old(len(r.unordered)) > 0 ==>
 //@      sameSlice(r.unordered, old(r.unordered[1:])) && sameSlice(r.ordered, old(r.ordered)) && r.nextSSN == old(r.nextSSN)
-//@   ensures#ordered-in-sequence{C01,C06,C16} result2 == nil && !old(r.useInterleaving) && old(len(r.unordered)) == 0 ==>
+//@   ensures#ordered-in-sequence{C01,C06,C07,C16} result2 == nil && !old(r.useInterleaving) && old(len(r.unordered)) == 0 ==>
 //@      old(len(r.ordered)) > 0 && !specSerGT16(old(r.ordered[0].ssn), old(r.nextSSN)) && sameSlice(r.ordered, old(r.ordered[1:])) &&
 //@      r.nextSSN == old(r.nextSSN)+ite(old(r.ordered[0].ssn) == old(r.nextSSN), uint16(1), uint16(0))
-//@   ensures#ordered-mid-in-sequence{C01,C06,C16,C17} result2 == nil && old(r.useInterleaving) && old(len(r.unorderedMID)) == 0 ==>
+//@   ensures#ordered-mid-in-sequence{C01,C06,C07,C16,C17} result2 == nil && old(r.useInterleaving) && old(len(r.unorderedMID)) == 0 ==>
 //@      old(len(r.orderedMID)) > 0 && !specSerGT32(old(r.orderedMID[0].mid), old(r.nextMID)) && sameSlice(r.orderedMID, old(r.orderedMID[1:])) &&
 //@      r.nextMID == old(r.nextMID)+ite(old(r.orderedMID[0].mid) == old(r.nextMID), uint32(1), uint32(0))
 //@   ensures#unordered-mid-first{C06,C17} result2 == nil && old(r.useInterleaving) && old(len(r.unorderedMID)) > 0 ==>
